@@ -397,3 +397,38 @@ func checkProgressOnlyAfterWork(c *core.Ctx, rule string, floor int, pi *PkgInfo
 		mustPrecede(c, st, rule, fn, isWork, isTrueRet, "progress-reported-without-work", "returns true on a path on which it neither stored into the controller nor used a port")
 	}
 }
+
+// R11.22: a queue that was marked not running is dequeued.
+func checkNotRunningThenDequeued(c *core.Ctx, rule string) {
+	st := c.Rule(rule, "in the copy middleware every store `IsRunning = false` is followed by CommandQueue.Dequeue on every path to the function's return, whatever the kind of the command: a completion helper that returns early for commands that are not device-to-host copies clears the flag and leaves a host-to-device copy at the head of its queue - the driver starts it again on the next tick, sends every flush and every piece a second time, and the copy completes twice or never", 2)
+	for _, fn := range c.SrcFuncs(driverPkg) {
+		if !strings.HasPrefix(core.FuncName(fn), "defaultMemoryCopyMiddleware.") && !strings.HasPrefix(core.FuncName(fn), "globalStorageMemoryCopyMiddleware.") {
+			continue
+		}
+		g := core.BuildGraph(fn, 0, nil)
+		isDeq := func(n *core.Node) bool {
+			return core.IsCall(n.Instr, core.ModPath+"/amd/driver.CommandQueue.Dequeue") || core.IsNoReturnCall(n.Instr)
+		}
+		for _, n := range g.Nodes {
+			s, ok := storeToField(n.Instr, "CommandQueue.IsRunning")
+			if !ok {
+				continue
+			}
+			if b, isC := core.ConstBool(s.Val); !isC || b {
+				continue
+			}
+			st.Instances++
+			c.MarkAnalysed(fn)
+			bad := false
+			g.Walk(core.After(n, nil), core.WalkOpts{ForwardOnly: true, Stop: isDeq}, func(x core.State) {
+				if _, isRet := x.N.Instr.(*ssa.Return); isRet {
+					bad = true
+				}
+			})
+			st.Ob(!bad)
+			if bad {
+				c.ReportAt(rule, fn, n.Instr.Pos(), "not-running-but-not-dequeued", core.FuncName(fn)+" clears IsRunning and can return without dequeuing the command: the same command is started again on the next tick")
+			}
+		}
+	}
+}
